@@ -633,6 +633,16 @@ func (g *G) observe(env []px.Context, p *Prog) {
 		w.violate("fork-isolated", fmt.Sprintf("goroutine g%d Observe#%d: stack of ctx#%d is %v, its own goroutine's operations (and the parent's before the fork) make it %v",
 			g.id, p.L, lo.Ctx, lo.Stack, s.stack))
 	}
+	// StackTop(): the last frame of the goroutine's own stack, a location of no frame when there is none
+	if top := c.StackTop(); len(s.stack) > 0 {
+		if top == nil || top.File() != "verif" || top.Line() != s.stack[len(s.stack)-1] {
+			w.violate("fork-isolated", fmt.Sprintf("goroutine g%d Observe#%d: StackTop() of ctx#%d is %v, its own goroutine's operations (and the parent's before the fork) make the stack %v",
+				g.id, p.L, lo.Ctx, locText(top), s.stack))
+		}
+	} else if top != nil && top.File() == "verif" {
+		w.violate("fork-isolated", fmt.Sprintf("goroutine g%d Observe#%d: StackTop() of ctx#%d is frame %v, its own goroutine's operations (and the parent's before the fork) leave its stack empty",
+			g.id, p.L, lo.Ctx, locText(top)))
+	}
 	if lo.Loader != s.loader {
 		w.violate("loader-restored", fmt.Sprintf("goroutine g%d Observe#%d: loader of ctx#%d is loader#%d, expected loader#%d",
 			g.id, p.L, lo.Ctx, lo.Loader, s.loader))
@@ -656,6 +666,13 @@ func (g *G) observe(env []px.Context, p *Prog) {
 	}
 	e.Lex = lo
 	g.emit(e)
+}
+
+func locText(l issue.Location) string {
+	if l == nil {
+		return "nil"
+	}
+	return fmt.Sprintf("%s:%d", l.File(), l.Line())
 }
 
 func mapText(m map[int]int, k int) string {
